@@ -53,6 +53,10 @@ def cases(rng, tier):
     for n in rng.sample(names, 10):
         yield {"name": n + "x", "unpack": False, "doc": None}
         yield {"name": n[:-1], "unpack": False, "doc": None}
+    # the data home must follow TRAFFIC_WEAVER_DATA also when it changes between loads in one process
+    remote = [n for n in names if not n.startswith("sandvine")]
+    for n in rng.sample(remote, 4):
+        yield {"name": n, "unpack": False, "doc": n, "envseq": True}
 
 
 def request(c):
@@ -89,6 +93,19 @@ def run_impl(c):
     old = (base.urlretrieve, base._sha256, os.environ.get("TRAFFIC_WEAVER_DATA"))
     base.urlretrieve, base._sha256 = fake_retrieve, fake_sha
     os.environ["TRAFFIC_WEAVER_DATA"] = home
+    first_home = None
+    if c.get("envseq"):
+        # use the data home once under another directory, then switch the variable
+        first_home = tempfile.mkdtemp(prefix="twv-c18a-")
+        os.environ["TRAFFIC_WEAVER_DATA"] = first_home
+        from traffic_weaver.datasets import get_data_home
+        get_data_home()
+        try:
+            load_dataset("mix-it-milan_daily")
+        except Exception:  # noqa
+            pass
+        os.environ["TRAFFIC_WEAVER_DATA"] = home
+        seen["urls"].clear()
     try:
         try:
             r = load_dataset(c["name"], unpack_dataset_columns=c["unpack"])
@@ -113,6 +130,8 @@ def run_impl(c):
         else:
             os.environ["TRAFFIC_WEAVER_DATA"] = old[2]
         shutil.rmtree(home, ignore_errors=True)
+        if first_home:
+            shutil.rmtree(first_home, ignore_errors=True)
 
 
 def record_for(c, io):
